@@ -352,16 +352,26 @@ func (doc *Document) Warnings() (warnings Warnings) {
 			context.Family = family
 		}
 
-		Filter(node, doc, func(node Node) (newNode Node, traverseChildren bool) {
-			if warner, ok := node.(Warner); ok {
-				for _, warning := range warner.Warnings() {
-					warning.SetContext(context)
-					warnings = append(warnings, warning)
-				}
-			}
+		warnings = append(warnings, nodeWarnings(node, context)...)
+	}
 
-			return node, true
-		})
+	return
+}
+
+// nodeWarnings returns the warnings for a node and all of its children.
+//
+// Filter must not be used to traverse the nodes because it creates copies of
+// the nodes in the document (a new family for every family that is visited).
+func nodeWarnings(node Node, context WarningContext) (warnings Warnings) {
+	if warner, ok := node.(Warner); ok {
+		for _, warning := range warner.Warnings() {
+			warning.SetContext(context)
+			warnings = append(warnings, warning)
+		}
+	}
+
+	for _, child := range node.Nodes() {
+		warnings = append(warnings, nodeWarnings(child, context)...)
 	}
 
 	return
